@@ -30,6 +30,9 @@ VARIANTS = {
     # thread harness: ASan only (UBSan's function instrumentation is not needed), asserts live
     "ts": ("gcc", ["-O1", "-g", "-fsanitize=address", "-fno-omit-frame-pointer"], "std", ["-fsanitize=address"]),
     "ts-ndebug": ("gcc", ["-O1", "-g", "-DNDEBUG", "-fsanitize=address", "-fno-omit-frame-pointer"], "std", ["-fsanitize=address"]),
+    # race stage of C13: no sanitizer runtime; the library objects get -fsanitize=thread through the stage's lib_cflags (compile
+    # only: the access hooks are defined by the harness, see harness/c13_race.h)
+    "ts-plain-ndebug": ("gcc", ["-O1", "-g", "-DNDEBUG", "-fno-omit-frame-pointer"], "std", []),
     "tsan": ("clang", ["-O1", "-g", "-fsanitize=thread", "-fno-omit-frame-pointer"], "std", ["-fsanitize=thread"]),
 }
 
